@@ -10,6 +10,7 @@ forward pass's side effects are published exactly once and equal those of the pl
 -/
 import Flax.Model.LiftAD
 import Flax.Proofs.Lift
+import Flax.Proofs.ModScopes
 
 namespace Flax.C07
 open Flax.Filter Flax.Lift Flax.LiftAD
@@ -475,6 +476,26 @@ theorem custom_vjp_rule_only_under_ad {ρ β : Type} (cv : CustomVjp ρ β) (x :
   refine ⟨rfl, ?_⟩
   intro y res h
   simp [CustomVjp.vjp, h]
+
+/-! ## several scopes (`nn.vjp(..., multi_scope=True)`) -/
+
+/-- **multi_scope_cotangent_positions.** `lift.vjp` over a module that holds other bound modules returns one
+variable-cotangent dict per collected scope, in `get_module_scopes` order (`_bwd_wrapper` unflattens with the scope
+list's treedef).  Position `k` of that list belongs to the `k`-th owner, and `set_module_scopes` gives that same owner
+the inner scope made from its own scope — for every module tree, field order, nesting and sharing.  So the `k`-th
+cotangent dict is the cotangent of the variables of the module that is bound to the `k`-th scope inside the lifted
+function. -/
+theorem multi_scope_cotangent_positions (ord : List (String × Flax.ModScopes.Node) → List (String × Flax.ModScopes.Node))
+    (m : Flax.ModScopes.Node) (ρ : Nat → Nat) (k : Nat) (o : Flax.ModScopes.Owner)
+    (h : (Flax.ModScopes.getOwners ord m)[k]? = some o) :
+    (Flax.ModScopes.setAssign ord m ((Flax.ModScopes.getOwners ord m).map (fun o => ρ o.scope))).1[k]? =
+      some (o, some (ρ o.scope)) ∧
+    (Flax.ModScopes.setAssign ord m ((Flax.ModScopes.getOwners ord m).map (fun o => ρ o.scope))).2 = true := by
+  rw [Flax.ModScopes.setAssign_getOwners]
+  simp [h]
+
+example : (Flax.ModScopes.getOwners Flax.ModScopes.sortKeys
+    (.mod 0 (some 9) [("pair_other", .mod 1 (some 4) [])]))[0]? = some (.m 1 4) := by decide
 
 /-! ## non-vacuity -/
 
